@@ -9,7 +9,15 @@ for r in rows:
     s=m['summary'].replace('|','/')
     if len(s)>150: s=s[:147]+'...'
     out.append(f"| {name} | {s} | {prop} | {st}; {cnt} | `{obl.strip()}` |")
-st=open('/verif/DESIGN-status.md').read().replace('@@RESULTS@@','\n'.join(out))
+import glob
+claims=['| id | functions under contract (all of their obligations discharge on every run) | obligations | bounded stand-ins (bound quick; never counted as proved) | known findings |','|---|---|---|---|---|']
+for f in sorted(glob.glob('/verif/evidence/C*.json')):
+    e=json.load(open(f)); c=e['coverage']
+    fns=', '.join(x['name'] for x in c['functions_under_contract'])
+    bs='; '.join('%s (bound %s, %s cases)'%(b['name'],b['bound'],b.get('cases','?')) for b in c.get('bounded_standins',[])) or '—'
+    kf='; '.join(sorted(set((k if isinstance(k,str) else k.get('obligation','?'))[:90] for k in c.get('known_findings',[])))) or '—'
+    claims.append('| %s | %s | %s | %s | %s |'%(e.get('property_id',f[-8:-5]),fns,c['discharged'],bs,kf))
+st=open('/verif/DESIGN-status.md').read().replace('@@RESULTS@@','\n'.join(out)).replace('@@CLAIMS@@','\n'.join(claims))
 d=open('/verif/DESIGN.md').read()
 a=d.index('## 0. Status as built'); b=d.index('---------------------------------------------------------------------------\n\n## 1. What is decided')
 open('/verif/DESIGN.md','w').write(d[:a]+st+'\n'+d[b:])
